@@ -7,7 +7,7 @@ p = next(json.loads(l) for l in open('/verif/properties.jsonl') if json.loads(l)
 wt = f"/tmp/mut/{pid.lower()}"
 files = ", ".join(p["anchors"]["files"])
 mech = "\n".join(f"  - {m['name']} ({m['where']})" for m in p["anchors"].get("mechanism", []))
-print(f"""You are testing how robust a Python library's behaviour is against subtle regressions. The library is odc-geo (opendatacube/odc-geo); you have your own scratch git worktree of it at {wt} (detached HEAD; work ONLY inside this directory; never touch /repo or /verif; do not read anything under /verif). Python is /venv/bin/python; run things with `cd {wt} && PYTHONPATH={wt} /venv/bin/python ...` so that your worktree's code is imported (verify with `import odc.geo; print(odc.geo.__file__)`). There is no network.
+print(f"""You are testing how robust a Python library's behaviour is against subtle regressions. The library is odc-geo (opendatacube/odc-geo); you have your own scratch git worktree of it at {wt} (detached HEAD; work ONLY inside this directory; never touch /repo or /verif; do not read anything under /verif). Python is /venv/bin/python; run things with `cd {wt} && PYTHONPATH={wt} /venv/bin/python ...` so that your worktree's code is imported (verify with `import odc.geo; print(odc.geo.__file__)`). There is no network. Do NOT use `git stash` (the stash is shared between worktrees of other people working in parallel); toggle your change with `git apply` / `git apply -R` / `git checkout -- .` and patch files only.
 
 Here is a semantic property the library is supposed to satisfy:
 
